@@ -288,6 +288,41 @@ func corrC08(c *corrCtx) {
 			}
 		}
 	}
+	// far into a stream: the structure the loader still needs ends shortly after a round number of MiB
+	// of ancillary data (any limit on how much is read or recorded would sit at such a place); too large
+	// for the line protocol, so only the property's own oracle runs: every schedule gives the same answer
+	marks := []int{1 << 20, 16 << 20}
+	if c.thorough() {
+		marks = []int{1 << 20, 4 << 20, 8 << 20, 16 << 20, 32 << 20, 64 << 20}
+	}
+	for _, mark := range marks {
+		for _, past := range []int{2000, 4095, 5000} {
+			prof := randProfilePayload(r, 3000)
+			pd := randPngDesc(r, true, prof)
+			pd.pre, pd.post = nil, nil
+			probe, _ := pd.build()
+			_ = probe
+			// iCCP chunk: 12 + name + 2 + len(z) bytes; IHDR ends at 33; filler chunk has 12 bytes of framing
+			iccLen := 12 + len(pd.iccName) + 2 + len(pd.iccZ)
+			fill := mark + past - 33 - 12 - iccLen
+			if fill < 0 {
+				continue
+			}
+			pd.pre = []pngChunk{{"prVt", make([]byte, fill)}}
+			data, _ := pd.build()
+			ref := runLoadx("png", data, nil, false, false).meta
+			for _, sc := range [][]int{{4096}, {4097}, {7}, {65536, 3}, {1 << 20}} {
+				for _, ld := range []string{"png", "auto"} {
+					got := runLoadx(ld, data, sc, false, false).meta
+					c.stats["far/"+ld]++
+					if got != ref {
+						c.direct(fmt.Sprintf("C08/far/%dMiB+%d/%s/sched=%s", mark>>20, past, ld, schedStr(sc)), "result depends on how the source segments its data (metadata ending far into the stream)",
+							map[string]interface{}{"loader": ld, "sched": schedStr(sc), "all_at_once": ref, "got": got, "len": len(data), "metadata_ends_at": mark + past})
+					}
+				}
+			}
+		}
+	}
 	// the ICC reader behind buffered readers of several sizes over scheduled sources
 	corrC08Icc(c)
 }
